@@ -114,3 +114,82 @@ def specs(prop='C05'):
         ctx.prove(f'{pre}.returns_tree[{label}]', r is tree)
 
     return [Fragment('parsex:_offset_linenos', prop, 'offset_linenos', [dict()], run_offset_linenos, min_obligations=2)]
+
+
+# ---------------------------------------------------------------------------------------------------------------------
+# Escape guards: a fragment such as 'a=1)(b=2' closes the wrapper early and the REST of the wrapper parses as something
+# else (a second call, a return annotation, a case guard, a subscript chain); the parser then finds a well-formed node
+# for a PART of the text.  Each wrapper kind has a tell-tale that the function must test before it returns.
+
+ESCAPE_KINDS = {
+    'call': 'the wrapper call `f(...)`: its func must still be the Name f (`<x>.func.__class__ is not Name`)',
+    'def': 'the wrapper `def f(...)`: it must not have acquired a return annotation (`<x>.returns`)',
+    'case': 'the wrapper `case ...:`: it must not have acquired a guard (guards passed to _ast_parse1_case and tested, or `.guard`)',
+    'subscript': 'the wrapper `a[...]`: its value must still be the Name a (`<x>.value.__class__ is not Name`)',
+}
+BASELINE_ESCAPE = {
+    ('parse_expr_arglike', 'call'), ('parse__arglike', 'call'), ('parse__arglikes', 'call'), ('parse_keyword', 'call'),
+    ('parse__expr_arglikes', 'call'),
+    ('parse__pattern_attrlikes', 'case'),
+    ('parse_arguments', 'def'), ('parse_arg', 'def'), ('parse_pattern', 'case'), ('parse__MatchMapping_maybe_undelimited', 'case'),
+    ('parse_expr_slice', 'subscript')}
+
+
+def _escape_kind(pre, post):
+    if pre.startswith('f(\n'):
+        return 'call'
+    if pre.startswith('def f('):
+        return 'def'
+    if pre.startswith('match _:\n case'):
+        return 'case'
+    if pre == 'a[\n':
+        return 'subscript'
+    return None
+
+
+def _has_guard(fn, kind):
+    for n in ast.walk(fn):
+        if kind in ('call', 'subscript') and isinstance(n, ast.Compare) and len(n.ops) == 1 and isinstance(n.ops[0], ast.IsNot):
+            l, r = n.left, n.comparators[0]
+            if (isinstance(l, ast.Attribute) and l.attr == '__class__' and isinstance(l.value, ast.Attribute)
+                    and l.value.attr == ('func' if kind == 'call' else 'value') and isinstance(r, ast.Name) and r.id == 'Name'):
+                return True
+        if kind == 'def' and isinstance(n, (ast.If, ast.BoolOp, ast.IfExp)):
+            t = n.test if isinstance(n, (ast.If, ast.IfExp)) else n
+            if any(isinstance(x, ast.Attribute) and x.attr == 'returns' for x in ast.walk(t)):
+                return True
+        if kind == 'case':
+            if isinstance(n, ast.If) and any((isinstance(x, ast.Attribute) and x.attr == 'guard') or
+                                             (isinstance(x, ast.Name) and x.id == 'guards') for x in ast.walk(n.test)):
+                if not any(isinstance(x, ast.Name) and x.id == 'guards' for x in ast.walk(n.test)):
+                    return True
+                # `guards` is only filled by calls that are handed it: every _ast_parse1_case call of the function must
+                calls = [c for c in ast.walk(fn) if isinstance(c, ast.Call) and isinstance(c.func, ast.Name)
+                         and c.func.id == '_ast_parse1_case']
+                if calls and all(len(c.args) >= 3 and isinstance(c.args[2], ast.Name) and c.args[2].id == 'guards' for c in calls):
+                    return True
+    return False
+
+
+def escape_structural(rep, prop='C05'):
+    from pyvc import frontend
+    mod = frontend.module('parsex')
+    found = {}
+    for fn in [n for n in mod.tree.body if isinstance(n, ast.FunctionDef)]:
+        for lineno, pre, post, callee in wrapper_sites(fn):
+            k = _escape_kind(pre, post)
+            if k:
+                found[(fn.name, k)] = fn
+    for key in sorted(BASELINE_ESCAPE):
+        name = f'{prop}.escape_guard.{key[0]}.{key[1]}'
+        fn = found.get(key)
+        if fn is None:
+            rep.undecided(name, 'the wrapper registered on the pinned tree is no longer found (function renamed or wrapper '
+                          'changed): the obligation can no longer be generated')
+            continue
+        ok = _has_guard(fn, key[1])
+        rep.other('structural', name, ok, detail=('tested: ' if ok else 'NOT tested: ') + ESCAPE_KINDS[key[1]], key=name,
+                  replay={'function': f'parsex:{key[0]}', 'kind': key[1], 'verifier_output': 'syntactic guard search'})
+    rep.extra['escape_guards_not_registered'] = sorted(f'{a}.{b}' for (a, b) in found if (a, b) not in BASELINE_ESCAPE)
+    if len(found) < 8:
+        rep.checker_error(f'only {len(found)} escaping-capable wrappers found in parsex.py')
